@@ -17,7 +17,7 @@ TRUST = (
 TABLE = {
     "C01": (
         "Hypothesis PBT vs closed-form solution (analytic symbol per mode, exact solution of trig polynomials), semigroup/reversal metamorphic relations",
-        "Every stored mode below Nyquist of every linear stepper class/variant is compared with exp(dt*symbol) written independently from the documented PDE, and physical-space steps of generated trigonometric polynomials with the analytic solution, over D=1..3, odd/even N, L, dt in +-[1e-6,1e6]; semigroup and reversal as metamorphic relations.",
+        "Every stored mode below Nyquist of every linear stepper class/variant is compared with exp(dt*symbol) written independently from the documented PDE, and physical-space steps of generated trigonometric polynomials with the analytic solution, over D=1..3, odd/even N, L, dt in +-[1e-6,1e6]; semigroup and reversal as metamorphic relations. Grid sizes: enumerated small N plus an 'any N' stratum (wide range incl. floating-point-delicate sizes).",
         "4/C01",
     ),
     "C02": (
@@ -27,27 +27,27 @@ TABLE = {
     ),
     "C03": (
         "Hypothesis PBT, differential against an alias-free fine-grid (4N) evaluation of the documented continuous operator",
-        "Each nonlinear term is compared on the retained band with the documented operator evaluated without aliasing on a 4x finer grid, exact zero outside the documented band, for contiguous N ranges covering all residues mod 12.",
+        "Each nonlinear term is compared on the retained band with the documented operator evaluated without aliasing on a 4x finer grid, exact zero outside the documented band, for contiguous N ranges covering all residues mod 12. Grid sizes: enumerated small N plus an 'any N' stratum (wide range incl. floating-point-delicate sizes).",
         "4/C03",
     ),
     "C04": (
         "exhaustive enumeration of the finite conventions + Hypothesis PBT of plane waves/round trips against analytic DFT values",
-        "The finite conventions (wavenumbers, scalings, masks for every cutoff, mode slices, grid) are enumerated completely per (D,N,indexing) against a NumPy oracle; every signed wavenumber vector of the grid is checked as a plane wave with generated amplitude/phase/L under all scalings and both indexings.",
+        "The finite conventions (wavenumbers, scalings, masks for every cutoff, mode slices, grid) are enumerated completely per (D,N,indexing) against a NumPy oracle; every signed wavenumber vector of the grid is checked as a plane wave with generated amplitude/phase/L under all scalings and both indexings. Arrays and masks additionally for every N <= 300 in 1D and selected large 2D/3D sizes (exact integer wavenumbers).",
         "4/C04",
     ),
     "C05": (
         "Hypothesis PBT vs analytic derivatives of generated trigonometric polynomials",
-        "Spectral derivatives of order 1..6, Laplace/gradient-inner-product symbols and the Poisson solver are compared with closed-form derivatives of generated Nyquist-free trigonometric polynomials.",
+        "Spectral derivatives of order 1..6, Laplace/gradient-inner-product symbols and the Poisson solver are compared with closed-form derivatives of generated Nyquist-free trigonometric polynomials. Grid sizes: enumerated small N plus an 'any N' stratum (wide range incl. floating-point-delicate sizes).",
         "4/C05",
     ),
     "C06": (
         "Hypothesis PBT, metamorphic: eager vs filter_jit vs vmap vs filter_vmap-constructed vs scan compositions",
-        "For every exported stepper class the eager one-at-a-time evaluation is the oracle for jit, vmap over states, filter_vmap over constructor parameters and rollout/repeat nestings; batch-member independence is checked by replacing one member.",
+        "For every exported stepper class the eager one-at-a-time evaluation is the oracle for jit, vmap over states, filter_vmap over constructor parameters and rollout/repeat nestings; batch-member independence is checked by replacing one member. Also the fully compiled sweep filter_jit(filter_vmap(construct+call)) and independence from a non-finite batch member along mapped rollouts.",
         "4/C06",
     ),
     "C07": (
         "Hypothesis PBT: jvp vs central finite differences, vjp adjoint identity, linearity",
-        "Forward-mode derivatives w.r.t. state, dt and coefficients are compared with central differences in float64, reverse mode with the adjoint identity, for every stepper class, orders 0-4, through rollouts; finiteness of all derivatives.",
+        "Forward-mode derivatives w.r.t. state, dt and coefficients are compared with central differences in float64, reverse mode with the adjoint identity, for every stepper class, orders 0-4, through rollouts; finiteness of all derivatives. Structured strata for purely real symbols (zero odd-order coefficients), coefficient-list entries exactly 0, derivative finiteness and linear Jacobians at the rest state.",
         "4/C07",
     ),
     "C08": (
@@ -62,17 +62,17 @@ TABLE = {
     ),
     "C10": (
         "Hypothesis PBT, invariant (spectral divergence) over rollouts + idempotence/agreement relations",
-        "Spectral divergence of Leray / make_incompressible / ProjectedConvection3d outputs and along rollouts of the 3D velocity steppers, idempotence, identity on divergence-free fields, mutual agreement.",
+        "Spectral divergence of Leray / make_incompressible / ProjectedConvection3d outputs and along rollouts of the 3D velocity steppers, idempotence, identity on divergence-free fields, mutual agreement. make_incompressible with indexing='xy' inside an ij/xy/ij call history; linearity for tiny and nearly solenoidal fields.",
         "4/C10",
     ),
     "C11": (
         "Hypothesis PBT, norm/energy invariant over rollouts with arbitrary (white-noise, Nyquist) states",
-        "L2 norm non-increase at every step of generated rollouts for all non-amplifying linear configurations, strict decay of every non-constant mode, exact preservation for advection/dispersion on odd N or Nyquist-free states, wave energy conservation.",
+        "L2 norm non-increase at every step of generated rollouts for all non-amplifying linear configurations, strict decay of every non-constant mode, exact preservation for advection/dispersion on odd N or Nyquist-free states, wave energy conservation. Grid sizes: enumerated small N plus an 'any N' stratum (wide range incl. floating-point-delicate sizes).",
         "4/C11",
     ),
     "C12": (
         "Hypothesis PBT vs closed-form laminar solution and forced-stepper identities",
-        "Kolmogorov steppers started from rest are compared with f(x)(e^{sigma t}-1)/sigma for the documented forcing over L, N, k, gamma, nu, drag, order, dt, n; ForcedStepper identities.",
+        "Kolmogorov steppers started from rest are compared with f(x)(e^{sigma t}-1)/sigma for the documented forcing over L, N, k, gamma, nu, drag, order, dt, n; ForcedStepper identities. Grid sizes: enumerated small N plus an 'any N' stratum (wide range incl. floating-point-delicate sizes).",
         "4/C12",
     ),
     "C13": (
@@ -87,17 +87,17 @@ TABLE = {
     ),
     "C15": (
         "Hypothesis PBT vs analytic values of trigonometric polynomials; round trips; mean invariant",
-        "FourierInterpolator and map_between_resolutions are compared with analytic values of generated band-limited states at arbitrary query points and resolutions of all parity combinations; grid-point reproduction and mean preservation for arbitrary states.",
+        "FourierInterpolator and map_between_resolutions are compared with analytic values of generated band-limited states at arbitrary query points and resolutions of all parity combinations; grid-point reproduction and mean preservation for arbitrary states. Grid sizes: enumerated small N plus an 'any N' stratum (wide range incl. floating-point-delicate sizes).",
         "4/C15",
     ),
     "C16": (
         "Hypothesis PBT: Parseval differential, closed-form integrals, metamorphic scaling/additivity/axioms",
-        "All metric functions are checked against closed-form integrals of trig pairs, Parseval agreement, L-scaling, resolution independence, additivity over channels/bands, metric axioms, Sobolev decomposition and correlation bounds.",
+        "All metric functions are checked against closed-form integrals of trig pairs, Parseval agreement, L-scaling, resolution independence, additivity over channels/bands, metric axioms, Sobolev decomposition and correlation bounds. Grid sizes: enumerated small N plus an 'any N' stratum (wide range incl. floating-point-delicate sizes).",
         "4/C16",
     ),
     "C17": (
         "exhaustive enumeration of single modes + Hypothesis PBT vs explicit per-mode sum",
-        "Every wavenumber vector of small grids is enumerated as a single-mode field and must land in bin round(|k|) with the documented weight; random states against an explicit per-mode NumPy sum.",
+        "Every wavenumber vector of small grids is enumerated as a single-mode field and must land in bin round(|k|) with the documented weight; random states against an explicit per-mode NumPy sum. Lattice modes next to a bin edge on grids up to 300x300, per-bin relative accuracy over 10 decades of dynamic range, amplitude homogeneity at extreme scales.",
         "4/C17",
     ),
     "C18": (
@@ -107,12 +107,12 @@ TABLE = {
     ),
     "C19": (
         "Hypothesis PBT: finiteness over a stiffness sweep, dtype checks, float32-vs-float64 differential",
-        "ETDRK coefficients/steps stay finite for |lambda dt| up to 1e15 and at 0; dtypes follow the session; float32 session results agree with float64 session results within a scaled single-precision bound.",
+        "ETDRK coefficients/steps stay finite for |lambda dt| up to 1e15 and at 0; dtypes follow the session; float32 session results agree with float64 session results within a scaled single-precision bound. Also on extreme domain extents, per-mode float32-vs-float64 comparison of the integrators, float32 inputs in an x64 session, and a fresh interpreter that enables x64 after importing the library.",
         "4/C19",
     ),
     "C20": (
         "exhaustive class sweep of malformed shapes + enumerated documented restrictions + Hypothesis-generated wrong shapes",
-        "All exported stepper classes x D x malformed-shape kinds must raise ValueError and accept well-formed states; every documented constructor restriction raises.",
+        "All exported stepper classes x D x malformed-shape kinds must raise ValueError and accept well-formed states; every documented constructor restriction raises. Entry points: __call__, RepeatedStepper(n=1,2), filter_jit, rollout, vmap.",
         "4/C20",
     ),
 }
